@@ -3,7 +3,7 @@ from fractions import Fraction
 import json
 
 from extract import pdf_tags
-from harness import apilog, c16docs, docs, htmlmin, pdfread, pdfstream
+from harness import apilog, c16docs, docs, htmlmin, pdffile, pdfread, pdfstream
 from vlib import sx
 from vlib.framework import PropCheck
 
@@ -19,8 +19,9 @@ class RenderTimeout(Exception):
     """Layout did not finish (a C02 matter: recorded, never a C16 disagreement)."""
 
 
-def render_pdf(html, opts, timeout=10):
-    """(Document, pdf bytes).  `zoom` is an argument of write_pdf, the rest are options."""
+def render_pdf(html, opts, timeout=10, capture=None):
+    """(Document, pdf bytes).  `zoom` is an argument of write_pdf, the rest are options.  `capture`: a list that
+    receives the `pydyf.PDF` object (through the public `finisher` hook, before it is written)."""
     import signal
     docs.quiet()
     opts = dict(opts)
@@ -28,14 +29,16 @@ def render_pdf(html, opts, timeout=10):
 
     def on_alarm(signum, frame):
         raise RenderTimeout()
-    previous = signal.signal(signal.SIGALRM, on_alarm)
-    signal.alarm(timeout)
+    # CPU time, not wall clock: a loaded machine must not turn a healthy render into a "hang"
+    previous = signal.signal(signal.SIGPROF, on_alarm)
+    signal.setitimer(signal.ITIMER_PROF, timeout)
     try:
         document = docs.html(html).render(**opts)
-        return document, document.write_pdf(zoom=zoom, **opts)
+        finisher = None if capture is None else (lambda _document, pdf: capture.append(pdf))
+        return document, document.write_pdf(zoom=zoom, finisher=finisher, **opts)
     finally:
-        signal.alarm(0)
-        signal.signal(signal.SIGALRM, previous)
+        signal.setitimer(signal.ITIMER_PROF, 0)
+        signal.signal(signal.SIGPROF, previous)
 
 
 def atom_name(name):
@@ -112,9 +115,9 @@ def structural_problem(data, document=None):
             if pdf.resolve(page.get('Parent')) is None:
                 return 'page without /Parent'
         pdfread.content_streams(pdf)
+        return kinds_problem(pdf) or struct_tree_problem(pdf)
     except pdfread.PdfError as exc:
         return f'independent reader: {exc}'
-    return None
 
 
 # PDF 32000-1 Annex A: operator -> operand kinds ('n' number, 'N' name, 's' string, 'a' array, 'd' dictionary or name);
@@ -161,6 +164,152 @@ def operand_problem(op, operands):
     else:
         ok = len(kinds) == len(want) and all(k == w or (w == 'd' and k in 'dN') for k, w in zip(kinds, want))
     return None if ok else f'`{op}` has operands {operands!r} (kinds {kinds!r}), Annex A asks for {want!r}'
+
+
+KNOWN_STRUCTURE_SEEN = __import__('collections').Counter()
+
+
+def _is_number(v):
+    return isinstance(v, (int, float)) and not isinstance(v, bool)
+
+
+def resource_entry_problem(pdf, category, name, value):
+    """`every indirect reference resolves to an object of the expected kind`, for one resource entry."""
+    obj = pdf.resolve(value)
+    where = f'/{category} /{name}'
+    if category == 'XObject':
+        if not isinstance(obj, pdfread.PdfStream):
+            return f'{where} is not a stream'
+        subtype = obj.extra.get('Subtype')
+        if subtype == 'Image':
+            if not (isinstance(obj.extra.get('Width'), int) and isinstance(obj.extra.get('Height'), int)):
+                return f'{where}: image without integer /Width /Height'
+            if not obj.extra.get('ImageMask') and ('ColorSpace' not in obj.extra or 'BitsPerComponent' not in obj.extra):
+                return f'{where}: image without /ColorSpace or /BitsPerComponent'
+            smask = obj.extra.get('SMask')
+            if smask is not None and not (isinstance(pdf.resolve(smask), pdfread.PdfStream) and
+                                          pdf.resolve(smask).extra.get('Subtype') == 'Image'):
+                return f'{where}: /SMask is not an image stream'
+        elif subtype == 'Form':
+            bbox = pdf.resolve(obj.extra.get('BBox'))
+            if not (isinstance(bbox, list) and len(bbox) == 4 and all(_is_number(v) for v in bbox)):
+                return f'{where}: form without a /BBox rectangle'
+        else:
+            return f'{where}: XObject of subtype {subtype!r}'
+    elif category == 'Font':
+        if not (isinstance(obj, dict) and obj.get('Type') == 'Font' and isinstance(obj.get('Subtype'), pdfread.Name)):
+            return f'{where} is not a font dictionary'
+        if obj['Subtype'] == 'Type0':
+            descendants = pdf.resolve(obj.get('DescendantFonts'))
+            if not (isinstance(descendants, list) and len(descendants) == 1 and
+                    isinstance(pdf.resolve(descendants[0]), dict)):
+                return f'{where}: Type0 font without one descendant font'
+    elif category == 'ExtGState':
+        if not isinstance(obj, dict):
+            return f'{where} is not a dictionary'
+        for key in ('ca', 'CA'):
+            if key in obj and not (_is_number(obj[key]) and 0 <= obj[key] <= 1):
+                return f'{where}: /{key} {obj[key]!r} is not a number in [0, 1]'
+        smask = pdf.resolve(obj.get('SMask'))
+        if isinstance(smask, dict):
+            group = pdf.resolve(smask.get('G'))
+            if not (isinstance(group, pdfread.PdfStream) and group.extra.get('Subtype') == 'Form' and
+                    isinstance(pdf.resolve(group.extra.get('Group')), dict)):
+                return f'{where}: soft mask /G is not a transparency group form'
+    elif category == 'Pattern':
+        extra = obj.extra if isinstance(obj, pdfread.PdfStream) else obj
+        if not (isinstance(extra, dict) and extra.get('PatternType') in (1, 2)):
+            return f'{where} is not a pattern'
+        if extra['PatternType'] == 1 and not (
+                isinstance(obj, pdfread.PdfStream) and _is_number(extra.get('XStep')) and _is_number(extra.get('YStep'))):
+            return f'{where}: tiling pattern without /XStep /YStep'
+        if extra['PatternType'] == 1 and 0 in (extra['XStep'], extra['YStep']):
+            # listed finding pattern-zero-step (background-repeat: space in an area smaller than the image)
+            KNOWN_STRUCTURE_SEEN['pattern-zero-step'] += 1
+    elif category == 'Shading':
+        if not (isinstance(obj, dict) and obj.get('ShadingType') in range(1, 8) and 'ColorSpace' in obj):
+            return f'{where} is not a shading dictionary'
+        if obj['ShadingType'] in (2, 3):
+            coords = pdf.resolve(obj.get('Coords'))
+            want = 4 if obj['ShadingType'] == 2 else 6
+            if not (isinstance(coords, list) and len(coords) == want and all(_is_number(v) for v in coords)):
+                return f'{where}: shading /Coords is not {want} numbers'
+            if not isinstance(pdf.resolve(obj.get('Function')), (dict, pdfread.PdfStream, list)):
+                return f'{where}: shading without /Function'
+    elif category == 'ColorSpace':
+        if not isinstance(obj, (list, pdfread.Name)):
+            return f'{where} is not a colour space'
+    return None
+
+
+def kinds_problem(pdf):
+    """Objects of the expected kind: page tree nodes, contents, every resource entry of every content stream,
+    annotations."""
+    pages_root = pdf.resolve(pdf.catalog.get('Pages'))
+    if not (isinstance(pages_root, dict) and pages_root.get('Type') == 'Pages'):
+        return 'catalog /Pages is not a page tree node'
+    for i, (ref, page, inherited) in enumerate(pdf.pages()):
+        parent = pdf.resolve(page.get('Parent'))
+        if not (isinstance(parent, dict) and parent.get('Type') == 'Pages' and ref in pdf.resolve(parent['Kids'])):
+            return f'page {i}: /Parent is not the page tree node that lists it'
+        contents = pdf.resolve(page.get('Contents'))
+        parts = [pdf.resolve(p) for p in contents] if isinstance(contents, list) else [contents]
+        if not all(isinstance(p, pdfread.PdfStream) for p in parts):
+            return f'page {i}: /Contents is not a stream'
+        for annot_ref in pdf.resolve(page.get('Annots')) or []:
+            annot = pdf.resolve(annot_ref)
+            if not (isinstance(annot, dict) and isinstance(annot.get('Subtype'), pdfread.Name) and
+                    annot.get('Type', 'Annot') == 'Annot'):
+                return f'page {i}: annotation {annot_ref!r} is not an annotation dictionary'
+            rect = pdf.resolve(annot.get('Rect'))
+            if not (isinstance(rect, list) and len(rect) == 4 and all(_is_number(v) for v in rect)):
+                return f'page {i}: annotation without a /Rect rectangle'
+    for label, _, cats in pdfread.content_streams(pdf):
+        for category, entries in cats.items():
+            for name, value in entries.items():
+                what = resource_entry_problem(pdf, category, name, value)
+                if what:
+                    return f'resources of {label}: {what}'
+    return None
+
+
+def struct_tree_problem(pdf):
+    """Tagged output: every marked-content identifier of a page stream has its structure element: the /ParentTree
+    entry of the page (its /StructParents key) is an array with one structure element per MCID, the MCIDs of the page
+    stream are 0 … n-1 in order, and each element points back (/Pg is the page, /K lists the MCID).
+    MCIDs inside form XObjects (opacity groups) are the listed finding mcid-in-group-stream and are not judged."""
+    root = pdf.resolve(pdf.catalog.get('StructTreeRoot'))
+    if root is None:
+        return None
+    if not (isinstance(root, dict) and root.get('Type') == 'StructTreeRoot'):
+        return '/StructTreeRoot is not a structure tree root'
+    tree = pdf.resolve(root.get('ParentTree'))
+    nums = pdf.resolve(tree.get('Nums')) if isinstance(tree, dict) else None
+    if not (isinstance(nums, list) and len(nums) % 2 == 0):
+        return '/ParentTree without a /Nums array of pairs'
+    table = dict(zip(nums[::2], nums[1::2]))
+    for i, (ref, page, inherited) in enumerate(pdf.pages()):
+        key = page.get('StructParents')
+        contents = pdf.resolve(page.get('Contents'))
+        ops = pdfread.content_ops(pdf.decode(contents))
+        mcids = [a[1]['MCID'] for o, a in ops if o == 'BDC' and isinstance(a[1], dict) and 'MCID' in a[1]]
+        if mcids != list(range(len(mcids))):
+            return f'page {i}: marked-content identifiers {mcids[:8]} are not 0, 1, 2 …'
+        if not mcids and key is None:
+            continue
+        parents = pdf.resolve(table.get(key))
+        if not (isinstance(parents, list) and len(parents) == len(mcids)):
+            return (f'page {i}: {len(mcids)} marked-content identifiers but the /ParentTree entry has '
+                    f'{len(parents) if isinstance(parents, list) else "no"} elements')
+        for mcid, parent in enumerate(parents):
+            element = pdf.resolve(parent)
+            if not (isinstance(element, dict) and element.get('Type') == 'StructElem'):
+                return f'page {i}: /ParentTree entry of MCID {mcid} is not a structure element'
+            kids = pdf.resolve(element.get('K'))
+            kids = kids if isinstance(kids, list) else [kids]
+            if mcid not in kids or element.get('Pg') != ref:
+                return f'page {i}: the structure element of MCID {mcid} does not list it (/K {kids!r}) or is on another page'
+    return None
 
 
 def stream_problem(ops, cats):
@@ -232,7 +381,7 @@ def document_problem(html, opts):
 class C16(PropCheck):
     id = 'C16'
     extractors = (pdf_tags.generate,)
-    modules = ('WpModel.Props.C16', 'WpModel.Witness.C16')
+    modules = ('WpModel.Props.C16', 'WpModel.Props.C16File', 'WpModel.Props.C16More', 'WpModel.Witness.C16')
     trusted_base = (
         'modelled, not verified: pdf/stream.py Stream (operator state machine, caches, peepholes, resource '
         'registration), draw/stack.py stacked, the page loop of generate_pdf (Model/PdfStream, Model/PdfPages)',
@@ -253,6 +402,7 @@ class C16(PropCheck):
     def correspondence(self, run):
         self.stream_scripts(run)
         self.small_functions(run)
+        self.serializer(run)
         self.documents(run)
 
     def stream_scripts(self, run):
@@ -262,19 +412,23 @@ class C16(PropCheck):
             'dictionaries) on the real Stream, every 4th one made ill-bracketed or extreme; compared: every stream '
             'token by token, ctm stacks, marked lists, every resource dictionary, the image table. non-trivial = at '
             'least one peephole or cache hit happened in the real objects')
-        for i in range(run.n(1500, 40000)):
+        for i in range(run.n(1500, 30000)):
             mark = run.rng.random() < 0.5
             pages = run.rng.choice([1, 1, 2])
             gen = pdfstream.ScriptGen(run.rng, mark, pages, adversarial=(i % 4 == 3))
             script = gen.generate()
             world = pdfstream.RealWorld(mark, pages)
             out = world.run(script)
-            tags = sorted(set(world.events)) + (['error-outcome'] if out.startswith('err:') else [])
+            tags = sorted(set(world.events)) + ([out] if out.startswith('err:') else [])
+            tags += script_branches(script, mark)
             if gen.adversarial:
                 tags.append('adversarial')
             sec.add(pdfstream.script_line(mark, pages, script), out,
                     meta={'mark': mark, 'pages': pages, 'script': pdfstream.jsonable(script)},
                     nontrivial=bool(world.events), tags=tags)
+
+        hit = set(sec.tags)
+        run.extra['stream_model_branches_never_hit'] = sorted(set(STREAM_BRANCHES) - hit)
 
     def small_functions(self, run):
         from pydyf import _to_bytes
@@ -309,6 +463,37 @@ class C16(PropCheck):
                 sec2.add(sx.line('pystr', pdfstream.num(value)), str(value), meta={'value': repr(value)},
                          nontrivial=nontrivial, tags=['str'])
 
+    def serializer(self, run):
+        import pydyf
+        sec = run.section(
+            'pydyf-data', 'random nested pydyf values (bytes, str, int, float, None, String with characters to escape, '
+            'Array, Dictionary, uncompressed Stream with / without a Length key) through the real `_to_bytes` / `.data` '
+            'against Model/PdfFile `PVal.data`, byte for byte; non-trivial = a container or an escaped string')
+        for _ in range(run.n(700, 12000)):
+            value, wire = pdffile.random_value(run.rng, run.rng.choice([0, 1, 2, 3]))
+            data = pydyf._to_bytes(value)
+            sec.add(sx.line('pdata', wire), pdffile.hx(data), meta={'value': repr(wire)[:400]},
+                    nontrivial=wire[0] in ('arr', 'dict', 'stream') or b'\\' in data, tags=[wire[0]])
+        sec2 = run.section(
+            'file-writer', 'random object lists (free objects, generations, info or not, identifier False / True / '
+            'bytes, versions incl. None and "1.10") through the real `pydyf.PDF.write`: total length, hash of all bytes, '
+            'every recorded offset, the xref position, and the Lean file checker on the model output; plus whether '
+            'object streams are used for every version x compress; non-trivial = more than the three built-in objects')
+        for _ in range(run.n(250, 5000)):
+            pdf, version, identifier = pdffile.random_pdf(run.rng)
+            compress = run.rng.random() < 0.3
+            version_b = pydyf._to_bytes(version or b'1.7')
+            data = pdffile.write_real(pdf, version, identifier, compress)
+            classic = data[pdf.xref_position:pdf.xref_position + 5] == b'xref\n'
+            sec2.add(sx.line('objstreams', version_b.decode(), compress), str(not classic).lower(),
+                     meta={'version': repr(version), 'compress': compress}, tags=['objstreams:' + str(not classic)])
+            if classic:
+                tags = [f'id:{type(identifier).__name__}', 'info' if pdf.info else 'no-info']
+                if any(o.free == 'f' for o in pdf.objects[1:]):
+                    tags.append('free-object')
+                sec2.add(pdffile.writefile_line(pdf, version, identifier), pdffile.written_text(data, pdf),
+                         meta={'objects': len(pdf.objects)}, nontrivial=len(pdf.objects) > 3, tags=tags)
+
     def documents(self, run):
         sec = run.section(
             'document-streams',
@@ -333,24 +518,34 @@ class C16(PropCheck):
             'stacking context; what it delegates (draw_background, draw_border, draw_inline_level …) is replayed from '
             'the recording; all streams and resource dictionaries compared. non-trivial = some context has opacity < 1, '
             'a transform, a clip or a nested context')
-        n_docs = run.n(150, 2000)
+        sec_file = run.section(
+            'document-file',
+            'the same runs, file level: whether pydyf used object streams (version >= 1.5 and compress, model '
+            '`usesObjectStreams`); for classic-xref outputs the `pydyf.PDF` object captured through the `finisher` hook is '
+            'written by Model/PdfFile `writeFile` and must give the real bytes (length, hash, every offset, xref position), '
+            'and the Lean file checker (`checkFile`: header, startxref, table, /Size, every in-use offset at `n g obj`) must '
+            'accept the real bytes with the object count and table position the independent reader found')
+        file_budget = [run.n(2_500_000, 40_000_000)]
+        n_docs = run.n(100, 1400)
         for i in range(n_docs):
             variant = c16docs.VARIANTS[i % len(c16docs.VARIANTS)]
             html, geo = c16docs.document(run.rng, depth=run.rng.choice([1, 2, 3]))
             opts = c16docs.options(run.rng, variant)
             meta = {'html': html, 'options': {k: (v.decode() if isinstance(v, bytes) else v) for k, v in opts.items()}}
             recorder = None
+            capture = []
             try:
                 try:
                     with apilog.recording() as recorder:
-                        document, data = render_pdf(html, opts)
+                        document, data = render_pdf(html, opts, capture=capture)
                     apilog.check_numbers(recorder.log)
                 except apilog.Unsupported as exc:
                     # something the wire format of the stream model does not carry: render again without the recorder
                     unsupported = run.extra.setdefault('api_log_unsupported', {})
                     unsupported[str(exc)[:60]] = unsupported.get(str(exc)[:60], 0) + 1
                     recorder = None
-                    document, data = render_pdf(html, opts)
+                    del capture[:]
+                    document, data = render_pdf(html, opts, capture=capture)
             except RenderTimeout:
                 run.extra['render_timeouts'] = run.extra.get('render_timeouts', 0) + 1
                 continue
@@ -371,7 +566,7 @@ class C16(PropCheck):
                             tags=[f'variant:{variant}', f'streams{min(len(recorder.streams) // 5 * 5, 30)}+'] + hits)
                 try:
                     skeleton = apilog.skeleton_line(recorder, mark)
-                    expected = recorder.show(wb='').replace('ok  | ', 'ok | ')
+                    expected = recorder.show(wb='', refs=False).replace('ok  | ', 'ok | ')
                 except apilog.ShapeMismatch as exc:
                     skeleton, expected = sx.line('skeleton', mark), f'shape-mismatch:{exc}'
                 contexts = sum(1 for e in recorder.tree_events if e[0] == 'ctx-begin')
@@ -391,9 +586,43 @@ class C16(PropCheck):
                 sec.add(check_line(ops, cats), 'ok', meta=dict(meta, stream=label), nontrivial=bool(skeleton),
                         tags=[f'variant:{variant}', f'stream:{kind}',
                               'compressed' if not opts['uncompressed_pdf'] else 'uncompressed'])
+            # the file around the objects: pydyf's writer against Model/PdfFile, the Lean file checker on the real bytes
+            version, identifier = resolved_write_args(opts)
+            classic = data[pdf.xref_pos:pdf.xref_pos + 5] == b'xref\n'
+            import pydyf
+            sec_file.add(sx.line('objstreams', pydyf._to_bytes(version or b'1.7').decode(), not opts['uncompressed_pdf']),
+                         str(not classic).lower(), meta=meta, tags=['objstreams:' + str(not classic)])
+            if classic and capture and len(data) <= 150_000 and file_budget[0] >= len(data):
+                file_budget[0] -= len(data)
+                sec_file.add(pdffile.writefile_line(capture[0], version, identifier),
+                             pdffile.written_text(data, capture[0]), meta=meta, tags=['writefile'])
+                sec_file.add(sx.line('checkfile', pdffile.hx(data)), f'ok n={pdf.xref_size} xref={pdf.xref_pos}',
+                             meta=meta, tags=['checkfile'])
+            elif classic:
+                run.extra['file_budget_skipped'] = run.extra.get('file_budget_skipped', 0) + 1
+            keys = dest_keys(pdf)
+            if keys:
+                names = [decode_key(k) for k in keys]
+                sec_file.add(sx.line('destnames', *[[ord(c) for c in n] for n in reversed(names)]),
+                             ' '.join(pdffile.hx(k) for k in keys), meta=meta, nontrivial=len(keys) > 1,
+                             tags=['destnames', 'destnames:non-ascii' if any(not n.isascii() for n in names) else
+                                   'destnames:ascii'])
+                if keys != sorted(keys):     # listed finding dests-names-unsorted
+                    KNOWN_STRUCTURE_SEEN['dests-names-unsorted'] += 1
+            if i % 10 == 0:
+                problem = compression_problem(html, opts)
+                run.extra['compressed_vs_plain_checked'] = run.extra.get('compressed_vs_plain_checked', 0) + 1
+                if problem:
+                    sec.add(sx.line('check', [], [], [], [], [], [], [], []), 'compression: ' + problem, meta=meta,
+                            tags=['compressed-vs-plain-differs'])
             zoom = Fraction(opts['zoom'])
             sec_tree.add(sx.line('pagetree', zoom, *page_geoms(document)), page_tree_text(pdf), meta=meta,
                          nontrivial=zoom != 1 or geo['bleed'] > 0, tags=[f'pages{min(len(document.pages), 4)}'])
+
+        run.extra['known_structure_findings_met'] = dict(KNOWN_STRUCTURE_SEEN)
+        run.extra['skeleton_model_branches_never_hit'] = sorted(set(SKELETON_BRANCHES) - set(sec_skel.tags))
+        run.extra['variants_never_rendered'] = sorted(
+            {f'variant:{v}' for v in c16docs.VARIANTS} - set(sec.tags))
 
     # ---- judge / search / replay --------------------------------------------------------------------------------
     def judge(self, d):
@@ -477,6 +706,9 @@ class C16(PropCheck):
         replays = {name: (lambda name=name: crash_replay(name)) for name in CRASH_INPUTS}
         replays['alpha-state-stale-cache'] = alpha_state_replay
         replays['none-component-unsupported-space'] = none_component_replay
+        replays['pattern-zero-step'] = pattern_zero_step_replay
+        replays['dests-names-unsorted'] = dests_unsorted_replay
+        replays['mcid-in-group-stream'] = mcid_in_group_replay
         return replays
 
     def replay(self, data):
@@ -502,6 +734,65 @@ class C16(PropCheck):
             out = pdfstream.RealWorld(meta['mark'], meta['pages']).run(script)
             return script_problem(meta, out) or cache_problem(self.driver, dict(meta))
         return None
+
+
+# Branches of Model/PdfStream a script can take (reported in the evidence; `…never_hit` lists the ones a run missed).
+STREAM_BRANCHES = [
+    'pop-drops-q', 'bt-merges', 'color-cache-hit', 'alpha-cache-hit', 'font-cache-hit', 'err:AssertionError',
+    # (the IndexError branches of the model are unreachable: theorem C16.stream_raises_only_assert)
+    'space:rgb', 'space:labD65', 'space:labD50', 'space:other', 'colour:none-component',
+    'colour:stroke', 'alpha:stroke-only', 'alpha:fill-only', 'alpha:both', 'alpha:neither', 'marked:off',
+    'marked:mcid', 'marked:bmc', 'marked:explicit-tag', 'state:alpha', 'state:plain', 'blend', 'transform',
+    'call:group', 'call:pattern', 'call:shading', 'call:image', 'call:image-again', 'call:alphastate', 'call:clone',
+    'scn:pattern', 'scn:numbers', 'text-op-in-text', 'streams>1']
+SPACE_CLASS = {'srgb': 'rgb', 'hsl': 'rgb', 'hwb': 'rgb', 'xyz-d65': 'labD65', 'oklab': 'labD65', 'oklch': 'labD65',
+               'xyz-d50': 'labD50', 'lab': 'labD50', 'lch': 'labD50'}
+
+
+def script_branches(script, mark):
+    tags, images = set(), set()
+    for call in script:
+        if call[0] != 'on':
+            kind = call[0]
+            if kind == 'image':
+                key = (call[1], call[2], call[3])
+                tags.add('call:image-again' if key in images else 'call:image')
+                images.add(key)
+            else:
+                tags.add(f'call:{kind}')
+            if kind in ('group', 'pattern', 'alphastate', 'clone'):
+                tags.add('streams>1')
+            continue
+        name, args = call[2], call[3:]
+        if name == 'color':
+            tags.add('space:' + SPACE_CLASS.get(args[0].space, 'other'))
+            if any(c is None for c in args[0].coordinates):
+                tags.add('colour:none-component')
+            if args[1]:
+                tags.add('colour:stroke')
+        elif name == 'alpha':
+            stroke = bool(args[1])
+            fill = (not stroke) if args[2] is None else bool(args[2])
+            tags.add({(True, False): 'alpha:stroke-only', (False, True): 'alpha:fill-only', (True, True): 'alpha:both',
+                      (False, False): 'alpha:neither'}[(stroke, fill)])
+        elif name == 'bm':
+            tags.add('marked:off' if not mark else 'marked:explicit-tag' if args[2] else
+                     'marked:mcid' if args[1] else 'marked:bmc')
+        elif name == 'state':
+            tags.add('state:alpha' if args[0] is not None or args[1] is not None else 'state:plain')
+        elif name == 'blend':
+            tags.add('blend')
+        elif name == 'tr':
+            tags.add('transform')
+        elif name == 'scn':
+            tags.add('scn:pattern' if args[0] is not None else 'scn:numbers')
+        elif name == 'raw' and args[0] in ('set_text_matrix', 'show_text', 'move_text_to'):
+            tags.add('text-op-in-text')
+    return sorted(tags)
+
+
+SKELETON_BRANCHES = ['ctx:opacity', 'ctx:regular', 'ctx:singular', 'ctx:opacity+singular', 'ctx:root_clip',
+                     'ctx:abs_clip', 'ctx:clip']
 
 
 def api_events(log):
@@ -567,6 +858,27 @@ def crash_replay(finding_id):
     return False
 
 
+def pattern_zero_step_replay():
+    """`background-repeat: space` on an empty block: is a tiling pattern with a zero step still written?"""
+    _, data = render_pdf(PAGE_CSS + f'<p style="background:url({c16docs.PNG2_URI}) space"></p>', {})
+    pdf = pdfread.Document(data)
+    return any(isinstance(v, pdfread.PdfStream) and v.extra.get('PatternType') == 1 and
+               0 in (v.extra.get('XStep'), v.extra.get('YStep')) for v in pdf.objects.values())
+
+
+def mcid_in_group_replay():
+    """Tagged PDF: do marked-content identifiers still restart at 0 inside an opacity group (a form XObject without
+    /StructParents), colliding with the page's own MCIDs?"""
+    _, data = render_pdf(PAGE_CSS + '<p>a</p><div style="opacity:.5"><p>b</p></div>', {'pdf_variant': 'pdf/ua-1'})
+    pdf = pdfread.Document(data)
+    for label, ops, _ in pdfread.content_streams(pdf):
+        if '/X:' in label and any(o == 'BDC' and isinstance(a[1], dict) and 'MCID' in a[1] for o, a in ops):
+            form = [v for v in pdf.objects.values() if isinstance(v, pdfread.PdfStream) and
+                    v.extra.get('Subtype') == 'Form']
+            return not any('StructParents' in f.extra for f in form)
+    return False
+
+
 def none_component_replay():
     """`color(display-p3 none 0 1)`: does the page stream still contain the word `None` before `rg`?"""
     what = document_problem(PAGE_CSS + '<p style="color:color(display-p3 none 0 1)">a</p>', {'uncompressed_pdf': True})
@@ -617,6 +929,38 @@ def problem_kind(what):
     text = re.sub(r'^content stream [^ ]+: ', 'content stream: ', text)
     text = re.sub(r'\(open: .*\)|\[[^\]]*\]|\d+', '#', text)
     return text[:70]
+
+
+def dest_keys(pdf):
+    """Keys (bytes) of the /Dests name array of the catalog, in array order."""
+    names = pdf.resolve(pdf.catalog.get('Names'))
+    dests = pdf.resolve(names.get('Dests')) if isinstance(names, dict) else None
+    array = pdf.resolve(dests.get('Names')) if isinstance(dests, dict) else None
+    return [bytes(k) for k in array[::2]] if isinstance(array, list) else []
+
+
+def decode_key(key):
+    return key[2:].decode('utf-16-be') if key[:2] == b'\xfe\xff' else key.decode('ascii')
+
+
+def dests_unsorted_replay():
+    _, data = render_pdf(PAGE_CSS + '<a href="#a\u00e9">x</a><a href="#b">y</a><p id="a\u00e9">1</p><p id="b">2</p>', {})
+    keys = dest_keys(pdfread.Document(data))
+    return len(keys) == 2 and keys != sorted(keys)
+
+
+def resolved_write_args(opts):
+    """(version, identifier) as `Document.write_pdf` passes them to `PDF.write` (variant defaults applied; that
+    resolution itself is modelled by C19's WriteSinks)."""
+    from weasyprint.pdf import VARIANTS
+    version, identifier = opts.get('pdf_version'), opts.get('pdf_identifier')
+    if opts.get('pdf_variant'):
+        properties = VARIANTS[opts['pdf_variant']][1]
+        if 'version' in properties and not version:
+            version = properties['version']
+        if 'identifier' in properties and not identifier:
+            identifier = properties['identifier']
+    return version, identifier
 
 
 def decode_options(options):
@@ -771,6 +1115,10 @@ def script_problem(meta, impl_out):
         return None
     if impl_out.startswith('err:'):
         return f'well-bracketed API sequence raised {impl_out[4:]}'
+    # a `none` component in a colour space set_color does not convert is written as `None` by the unchanged code
+    known_none = any(
+        c[0] == 'on' and c[2] == 'color' and isinstance(c[3], dict) and c[3]['space'] not in pdfstream.RGB_TARGET and
+        any(v is None for v in c[3]['coords']) for c in script)
     streams, resources = impl_out.split(' || ')[0:2]
     res_list = resources.split(' | ')
     for i, part in enumerate(streams.split(' | ')[1:]):
@@ -783,6 +1131,8 @@ def script_problem(meta, impl_out):
         for tok in toks.split():
             op = tok.rsplit('_', 1)[-1]
             pieces = tok.split('_')[:-1]
+            if 'None' in pieces and known_none:
+                continue         # listed finding none-component-unsupported-space
             if op in NUMERIC_ARITY and (len(pieces) != NUMERIC_ARITY[op] or not all(
                     PDF_NUMBER.fullmatch(x) for x in pieces)):
                 return f'stream {i}: `{tok}`: `{op}` takes {NUMERIC_ARITY[op]} numbers'
@@ -824,7 +1174,12 @@ MANIFEST = {
             'singular transform (skeleton_balanced); every gs/Do/sh/pattern name is a key of the emitting stream\'s '
             'dictionary and generated keys are fresh (resources_defined, keys_fresh); caches are sound when nothing '
             'changes alpha/colour behind them (cache_sound_partial; the full statement is refuted: finding '
-            'alpha-state-stale-cache); one page object per page with the box arithmetic (page_tree, page_boxes).',
+            'alpha-state-stale-cache); one page object per page with the box arithmetic (page_tree, page_boxes); file '
+            'level: xref offsets and startxref of pydyf\'s writer model are correct for every object list '
+            '(xref_offsets_correct), the Lean file checker is sound and accepts everything the writer model produces '
+            '(check_file_sound, checker_accepts_writer); Stream can only raise the unmatched-pop assertion '
+            '(stream_raises_only_assert); sub-resource dictionaries are never shared (resources_unshared); /Dests keys '
+            'sorted for ASCII names (names_sorted_partial; full statement refuted: finding dests-names-unsorted).',
     'note': 'pydyf object syntax / xref / trailer / compression, font embedding (fontTools) and XMP metadata are checked '
             'only by the independent reader (py/harness/pdfread.py) on generated documents, not modelled. Skeleton '
             'theorem: delegated drawing restricted to calls on the current stream (streams created by images / '
